@@ -103,10 +103,10 @@ static const char *OPTN[N_OPT] = {"plain", "masses", "dummy2", "center", "rotate
                                   "fittingGroup", "fittingGroup/noFitGradients", "center+rotate(group2)"};
 enum Comb { K_SINGLE, K_COEFF, K_EXP2, K_EXP3, K_SUM, N_COMB };
 static const char *COMBN[N_COMB] = {"single", "coeff-2.5", "exp2", "exp3", "sum2"};
-enum Bias { B_HARM, B_WALL_IN, B_WALL_LO, B_WALL_UP, B_LINEAR, B_HISTO, B_ABMD, B_ABMD_OFF, B_META, B_OPES, N_BIAS };
+enum Bias { B_HARM, B_WALL_IN, B_WALL_LO, B_WALL_UP, B_LINEAR, B_HISTO, B_ABMD, B_ABMD_OFF, B_META, B_OPES, B_HISTO2, N_BIAS };
 static const char *BIASN[N_BIAS] = {"harmonic", "harmonicWalls/inside", "harmonicWalls/below", "harmonicWalls/above",
                                     "linear", "histogramRestraint", "abmd/active", "abmd/inactive",
-                                    "metadynamics/nogrid", "opes_metad"};
+                                    "metadynamics/nogrid", "opes_metad", "histogramRestraint/two-variables"};
 static const int N_GEOM = 3, N_CELL = 2;
 
 enum VType { T_SCALAR, T_VEC3, T_UNIT, T_QUAT, T_VECTOR };
@@ -470,12 +470,14 @@ static BiasPlan bias_text(Bias b, VType vt, std::vector<double> const &v0, doubl
   case B_LINEAR:
     bp.text = "linear" + head + "centers " + cvtxt(v0, vt) + "\nforceConstant " + f17(1.0 / S) + "\n}\n";
     break;
+  case B_HISTO2:
   case B_HISTO: {
     double lo = v0[0], hi = v0[0];
     for (double d : v0) { lo = std::min(lo, d); hi = std::max(hi, d); }
     double Sh = std::max(S, (hi - lo) / 4.0);
     double L = lo - 2 * Sh, U = hi + 2 * Sh, w = (U - L) / 8.0;
-    bp.text = "histogramRestraint" + head + "lowerBoundary " + f17(L) + "\nupperBoundary " + f17(U) + "\nwidth " + f17(w) +
+    // (two variables: a second variable c2 defined like c is restrained together with it, see prepare())
+    bp.text = "histogramRestraint" + (b == B_HISTO2 ? std::string(" {\nname b\ncolvars c c2\n") : head) + "lowerBoundary " + f17(L) + "\nupperBoundary " + f17(U) + "\nwidth " + f17(w) +
               "\ngaussianSigma " + f17(w) + "\nrefHistogram 0.02 0.05 0.1 0.3 0.25 0.15 0.08 0.05\nforceConstant " +
               f17(10.0 * w * w) + "\n}\n";
     break;
@@ -647,6 +649,14 @@ static Prepared prepare(std::vector<CompDef> const &C, CaseId const &id)
     P.sys.hist_id.push_back(which);
   }
   P.conf = cvconf + bp.text;
+  if ((Bias) id.b == B_HISTO2) {
+    // a copy of the variable under the name c2 (same atoms, same value): the restraint acts on both
+    size_t cstart = cvconf.find("colvar {");
+    std::string cv2 = cstart == std::string::npos ? cvconf : cvconf.substr(cstart);
+    size_t a = cv2.find("name c\n");
+    if (a != std::string::npos) cv2.replace(a, 7, "name c2\n");
+    P.conf = cvconf + cv2 + bp.text;
+  }
   P.ok = true;
   return P;
 }
@@ -790,7 +800,7 @@ static bool rejection_documented(CompDef const &c, CaseId const &id, std::string
   // biases defined for scalar variables only
   if (!scalar && (b == B_WALL_IN || b == B_WALL_LO || b == B_WALL_UP || b == B_ABMD || b == B_ABMD_OFF || b == B_OPES)) return true;
   // histogramRestraint: scalar and generic-vector variables only
-  if (b == B_HISTO && !(c.vt == T_SCALAR || c.vt == T_VECTOR)) return true;
+  if ((b == B_HISTO || b == B_HISTO2) && !(c.vt == T_SCALAR || c.vt == T_VECTOR)) return true;
   // polynomial combinations are defined for scalar components only
   if (!scalar && (id.k == K_EXP2 || id.k == K_EXP3)) return true;
   // linear restraints are not defined for periodic variables
